@@ -134,9 +134,27 @@ def run(ck: common.Check, replay=None):
         name = f"fifo_delay_n{n}_w{w}_t{tx}_r{rx}"
         designs.append({"name": name, "source": FIFO_DELAY_SRC.format(n=n, w=w, args=args, full_first="~fifo.full()", empty_first="~fifo.empty()"), "entity": "W"})
         metas.append(("fifo_delay", n, w, (tx, rx)))
+    # regression (d369d21): a Fifo with a single memory cell cannot hold N-1 = 0 elements sensibly; it must be rejected
+    n1 = X.compile_designs(ck, [{"name": "fifo_n1_w1", "source": FIFO_SRC.format(n=1, w=1), "entity": "W"}])[0]
+    ck.evaluations += 1
+    ck.obligation(not n1["ok"])
+    if n1["ok"]:
+        ck.violation({"config": "fifo_n1"}, "std.Fifo[T, 1] is accepted: it holds one element instead of N-1 = 0 and push, pop, push "
+                     "addresses mem(1) of a one-cell memory", {"source": FIFO_SRC.format(n=1, w=1), "inputs": ["push", "pop", "push"],
+                                                                "vhdl": n1["vhdl"]})
     res = X.compile_designs(ck, designs)
     cases = []
     ring_cases = []
+    by_theorem = []
+
+    def direct_ok(est_transitions, name):
+        """the second exploration (against the as-coded model) is run for configurations whose estimated product
+        (memory x indices x dout x inputs) is moderate; for the largest thorough-tier configurations the tie is the
+        all-sizes theorem C14_*_code_matches_*_all_N applied to the abstract-specification case of that configuration"""
+        if est_transitions <= 600000:
+            return True
+        by_theorem.append(name)
+        return False
     for dsg, meta, r in zip(designs, metas, res):
         kind, n, w, mode = meta
         if not r["ok"]:
@@ -157,6 +175,8 @@ def run(ck: common.Check, replay=None):
                        meta={"component": "Fifo", "N": n, "w": w, "source": dsg["source"]})
             # second theorem for the same VHDL: the as-coded ring-buffer model (Models/Ring.v), about which
             # Models/RingProofs.v proves the refinement to queue_step for ALL N
+            if not direct_ok(2 ** (n * w) * n * n * 2 ** w * 2 ** (2 + w), dsg["name"]):
+                continue
             ring_cases.append(X.Case(dsg["name"] + "_ring", r["vhdl"], step=f"ring_step {n} {w}%N", init=f"ring_init {n}",
                                      assume=f"ring_assume {n}", imports="From Cohdl Require Import Models.Ring.",
                                      meta={"component": "Fifo", "reference": "as-coded model ring_step (Models/Ring.v)",
@@ -166,6 +186,8 @@ def run(ck: common.Check, replay=None):
             c = X.Case(dsg["name"], r["vhdl"], step=f"stack_step {n} {w}%N {n.bit_length()}%N {drop}", init="[0%Z]",
                        assume=f"stack_assume {n} {drop}", imports="From Cohdl Require Import Models.StdSpecs.",
                        meta={"component": "Stack", "N": n, "w": w, "mode": mode, "source": dsg["source"]})
+            if not direct_ok(2 ** (n * w) * (n + 1) ** 2 * 2 ** w * 2 ** (3 + w), dsg["name"]):
+                continue
             ring_cases.append(X.Case(dsg["name"] + "_ring", r["vhdl"],
                                      step=f"stackm_step {n} {w}%N {n.bit_length()}%N {drop}", init=f"stackm_init {n}",
                                      assume=f"stackm_assume {n} {drop}", imports="From Cohdl Require Import Models.Ring.",
@@ -197,6 +219,7 @@ def run(ck: common.Check, replay=None):
     finally:
         ck.violation = orig_violation
     ck.cov["as_coded_model_cases"] = len(ring_cases)
+    ck.cov["as_coded_model_tied_by_theorem_only"] = by_theorem
     ck.cov["rule"] = ("one case per configuration (component, capacity N, data width w, stack mode); each case is a theorem over "
                       "all admissible input sequences; all are non-trivial")
     ck.trusted += ["fail-closed VHDL reader (harness/vhdl_reader.py)", "Vhdl.Sem (modelled VHDL-93 simulation cycle)",
